@@ -1,10 +1,12 @@
 import DriverVSA.SIOps
+import DriverVSA.SetOps
 /-! Line-protocol driver for the VSA family: one request per line, first token selects the handler.
 Imports only core-Lean model files under Claripy/ (never Mathlib), so it links as an executable. -/
 
 def dispatch (line : String) : String :=
   match (line.trimAscii.toString.splitOn " ").filter (· ≠ "") with
   | "si" :: args => DriverVSA.handleSI args
+  | "ds" :: args => DriverVSA.handleDS args
   | _ => "bad-op"
 
 partial def loop (h : IO.FS.Stream) (out : IO.FS.Stream) : IO Unit := do
